@@ -152,6 +152,11 @@ func (x *c13Run) apply(mv string) {
 		id := x.newID()
 		fields := harness.ReqFields("POST", "https", "h", "/big", [2]string{"x-sid", fmt.Sprint(id)}, [2]string{"content-length", "1000000"})
 		h.SendFrames(peer.Headers(id, staticBlock(fields), peer.HeadersOpt{EndHeaders: true, Pad: -1}))
+	case "content-length-0-open", "content-length-4-open":
+		// only used as the opening of a retained-heap case: a declared length below the limit, stream left open
+		id := x.newID()
+		fields := harness.ReqFields("POST", "https", "h", "/cl", [2]string{"x-sid", fmt.Sprint(id)}, [2]string{"content-length", strings.Split(mv, "-")[2]})
+		h.SendFrames(peer.Headers(id, staticBlock(fields), peer.HeadersOpt{EndHeaders: true, Pad: -1}))
 	case "request-timeout":
 		h.FireTimer()
 	case "ping":
